@@ -38,6 +38,9 @@ pub fn configs_c09(tier: Tier) -> Vec<Box<dyn Config>> {
     // HashSet and HashTable counterparts
     v.push(set_probe_cfg(Plan::Zero, if q { 8 } else { 11 }, tier));
     v.push(super::c06::tab(Plan::Zero, if q { 5 } else { 7 }, if q { 7 } else { 9 }, vec![crate::tablesut::TProbe::Iterators], false, tier, "-iterators"));
+    // over-aligned elements: iterating unallocated and small tables (the shared empty table is only group-aligned)
+    v.push(super::c02::lay::<crate::laysut::A64>(crate::laysut::Coll::Map, Plan::Zero, if q { 3 } else { 5 }, tier));
+    v.push(super::c02::lay::<crate::laysut::A32>(crate::laysut::Coll::Table, Plan::Max, if q { 3 } else { 5 }, tier));
     // the set-algebra iterators (union / intersection / difference / symmetric_difference): size_hint brackets,
     // next / fold agreement, clones taken mid-way, over all ordered pairs of small sets
     v.push(super::c07::pairs(Plan::Zero, 3, Plan::Zero, 3, false, tier));
